@@ -310,6 +310,17 @@ def r05_4(ck):
                'the step graph',
                'get_execution_layers no longer uses topological_generations '
                '(ordering idiom not recognised)')
+    lazy = [y for y in ast.walk(gel.node)
+            if isinstance(y, (ast.Yield, ast.YieldFrom))]
+    ck.require(bool(rets) and not lazy, 'R05.4', gel,
+               lazy[0] if lazy else gel.node.name,
+               'the layers of a phase are fixed when the phase begins: '
+               'get_execution_layers returns a list built up front',
+               'get_execution_layers hands the layers out lazily (a '
+               'generator over the live step collections): updates applied '
+               'during the phase add and remove steps under the iteration - '
+               'a step deleted by an earlier one makes a bystander miss the '
+               'phase, a step generated in the phase already runs in it')
     if rets:
         r = rets[0]
         # order: sequential part first
@@ -602,6 +613,16 @@ def r05_7(ck):
     ck.require(ok, 'R05.7', rm, seq[0] if seq else rm.node.name,
                'a sequential step is removed from the sequential list',
                None)
+    if seq:
+        extra = cfg.guards(cfg.node(seq[0])) - {
+            ('in', p, 'self._sequential_steps')}
+        ck.require(not extra, 'R05.7', rm, seq[0],
+                   'a sequential step is removed whatever the graph holds '
+                   '(flow-less steps never are graph nodes)',
+                   'a sequential step is only removed under %s: a deleted '
+                   'flow-less step stays in the sequential list, and a step '
+                   'created later at the same path runs twice per phase'
+                   % sorted(extra), seq[0])
     rn = [c for c in A.calls_in(rm.node, 'remove_node')]
     ok = bool(rn) and derives(rm.node, A.arg_of(rn[0], 0),
                               lambda x: A.is_name(x, p), at=rn[0])
